@@ -116,9 +116,18 @@ def run(ctx):
                     viol.append({"sig": "valid-rate-refused", "detail": "clockbound --max-drift-rate %s exited with code %s without publishing: %s" % (rate, r["exit_code"], r["stderr_tail"][-200:]), "replay": ""})
                 if len(samples) < 5 and cls != "representable":
                     samples.append({"rate_ppm": rate, "refused_exit_code": r["exit_code"]})
+    # hours of operation inside one process: the daemon's own writer thread fed 7300 outcomes (an outage
+    # of 1100 polls among them); the drift field of every record it publishes must be the configured one
+    from . import daemon
+    lviol, life_info = daemon.run_real_lives(ctx, 2 if q else 8, tolerate_build_failure=True)
+    for v in lviol:
+        if v["sig"] == "drift-field":
+            viol.append({"sig": "drift-field-changes-over-a-long-life", "detail": v["detail"], "replay": v.get("replay", "")})
     inconclusive = None
     if lost:
         inconclusive = "%d sandbox runs did not finish" % lost
+    elif life_info.get("inconclusive"):
+        inconclusive = life_info["inconclusive"]
     elif lost_life:
         inconclusive = "%d whole-life runs yielded fewer than 50 samples of the segment" % lost_life
     elif published < 20 or classes.get("not-representable", 0) < 20:
@@ -131,6 +140,7 @@ def run(ctx):
         "samples": samples,
         "published": published,
         "refused": refused,
+        "long_lives_of_the_writer_thread": life_info,
         "whole_life_runs": life_runs,
         "whole_life_segment_samples": life_samples,
         "classes": classes,
